@@ -1,4 +1,4 @@
-\* MC_v6 -- generated by mkcfg.py; IPv6 listener and peers, REQUESTED-ADDRESS-FAMILY classes
+\* MC_v6 -- generated by mkcfg.py; IPv6 listener and peers, REQUESTED-ADDRESS-FAMILY classes, vetoed IPv6 peer
 SPECIFICATION Spec
 VIEW View
 CONSTANTS
@@ -21,7 +21,7 @@ CONSTANTS
   PermTO = 2
   ChanTO = 3
   MaxLife = 3600
-  Denied <- MCNoDenied
+  Denied <- MCDeniedV6
   Toks = {"none"}
   ResvTO = 30
   QuotaDenied = {}
